@@ -171,6 +171,9 @@ func (h *harness) observe() {
 			khi++
 		}
 		h.states = append(h.states, persisted{off: st.Off, lo: h.lastObsMs, hi: now, klo: klo, khi: khi})
+		if os.Getenv("VERIF_DEBUG_ASOF") != "" {
+			fmt.Fprintf(os.Stderr, "observe state off=%d klo=%d khi=%d inflight=%v nops=%d\n", st.Off, klo, khi, h.inflight, len(h.ops))
+		}
 		h.s.Note("persisted state at %d", st.Off)
 	}
 	h.lastObsMs = now
@@ -837,9 +840,17 @@ func (h *harness) persist() {
 // raiseFloor records that the state record at off (and every later one) contains at
 // least the first floor+1 events of the history.
 func (h *harness) raiseFloor(off uint64, floor int) {
+	if os.Getenv("VERIF_DEBUG_ASOF") != "" {
+		fmt.Fprintf(os.Stderr, "raiseFloor off=%d floor=%d nops=%d\n", off, floor, len(h.ops))
+	}
 	for i := range h.states {
 		if h.states[i].off >= off && h.states[i].klo < floor {
 			h.states[i].klo = floor
+			if h.states[i].khi < floor {
+				// the implementation says this state is still the current one: the operations
+				// since it was written changed nothing (e.g. an ensure with nothing to do)
+				h.states[i].khi = floor
+			}
 		}
 	}
 }
